@@ -424,6 +424,8 @@ class PVLParser(object):
 
         try:
             self.parse_around_equals(tokens)
+        except LexerError:
+            raise
         except ValueError:
             tokens.throw(
                 ValueError, f'Expecting an equals sign after "{begin}" '
@@ -480,6 +482,8 @@ class PVLParser(object):
 
         try:
             self.parse_around_equals(tokens)
+        except LexerError:
+            raise
         except (ParseError, ValueError):  # No equals statement, which is fine.
             self.parse_statement_delimiter(tokens)
             return None
@@ -750,6 +754,8 @@ class PVLParser(object):
         try:
             t = next(tokens)
             value = self.decoder.decode_simple_value(t)
+        except LexerError:
+            raise
         except ValueError:
             tokens.send(t)
             for p in (
@@ -782,6 +788,8 @@ class PVLParser(object):
         self.parse_WSC_until(None, tokens)
         try:
             return self.parse_units(value, tokens)
+        except LexerError:
+            raise
         except (ValueError, StopIteration):
             return value
 
